@@ -735,3 +735,161 @@ Proof.
         -- exists [RReconcile]. eexists. split; [simpl; lia|]. split; [apply NW; simpl; intuition|]. split; reflexivity.
         -- exists []. eexists. split; [simpl; lia|]. split; [intros e []|]. split; reflexivity.
 Qed.
+
+(* ---------- (1t) deadlines ---------- *)
+Definition tinv (s : tst) : Prop := timer (t_st s) = true <-> t_deadline s <> None.
+
+Lemma tinv_init : tinv tinit.
+Proof. unfold tinv; simpl; split; [discriminate|congruence]. Qed.
+
+Lemma tstep_erase iv rt s x s' : tstep iv rt s x = Some s' -> step (t_st s) (snd x) = Some (t_st s').
+Proof.
+  destruct x as [now e]; unfold tstep; simpl. destruct (step (t_st s) e) as [s1|]; [|discriminate].
+  destruct e as [c| |ok].
+  - intros H; inversion H; reflexivity.
+  - intros H; inversion H; reflexivity.
+  - destruct (t_deadline s) as [d|]; [|discriminate]. destruct (N.leb d now); [|discriminate]. intros H; inversion H; reflexivity.
+Qed.
+
+Lemma trun_erase iv rt s l s' : trun iv rt s l = Some s' -> run (t_st s) (map snd l) = Some (t_st s').
+Proof.
+  revert s; induction l as [|x l IH]; intros s H; simpl in *.
+  - inversion H; reflexivity.
+  - destruct (tstep iv rt s x) as [s1|] eqn:E; [|discriminate]. rewrite (tstep_erase _ _ _ _ _ E). apply IH, H.
+Qed.
+
+Lemma tinv_step iv rt s x s' : tinv s -> tstep iv rt s x = Some s' -> tinv s'.
+Proof.
+  unfold tinv; intros I H. destruct x as [now e]; unfold tstep in H.
+  destruct (step (t_st s) e) as [s1|] eqn:E; [|discriminate].
+  destruct e as [c| |ok].
+  - inversion H; subst; clear H; simpl.
+    assert (K : timer (t_st s) = true -> timer s1 = true).
+    { intros T. simpl in E. destruct (ocfg_eqb (config (t_st s)) (Some c)); inversion E; subst; simpl; auto. }
+    destruct (timer (t_st s)) eqn:T.
+    + rewrite (K eq_refl). split; intros _; [apply I; reflexivity|reflexivity].
+    + destruct (timer s1); split; congruence.
+  - inversion H; subst; clear H; simpl.
+    assert (K : timer (t_st s) = true -> timer s1 = true).
+    { intros T. simpl in E. destruct (config (t_st s)); inversion E; subst; simpl; auto. }
+    destruct (timer (t_st s)) eqn:T.
+    + rewrite (K eq_refl). split; intros _; [apply I; reflexivity|reflexivity].
+    + destruct (timer s1); split; congruence.
+  - destruct (t_deadline s) as [d|]; [|discriminate]. destruct (N.leb d now); [|discriminate].
+    inversion H; subst; clear H; simpl. simpl in E. destruct (timer (t_st s)); [|discriminate].
+    inversion E; subst; simpl. destruct ok; simpl; split; congruence.
+Qed.
+
+Lemma tinv_run iv rt s l s' : tinv s -> trun iv rt s l = Some s' -> tinv s'.
+Proof.
+  revert s; induction l as [|x l IH]; intros s I H; simpl in *.
+  - inversion H; subst; assumption.
+  - destruct (tstep iv rt s x) as [s1|] eqn:E; [|discriminate]. eapply IH; [eapply tinv_step; eassumption|exact H].
+Qed.
+
+(* events other than Fire never move a pending deadline *)
+Lemma deadline_kept iv rt s l s' d : no_fire (map snd l) = true -> trun iv rt s l = Some s' ->
+  timer (t_st s) = true -> t_deadline s = Some d -> timer (t_st s') = true /\ t_deadline s' = Some d.
+Proof.
+  revert s; induction l as [|x l IH]; intros s Hn H T D; simpl in *.
+  - inversion H; subst; auto.
+  - apply andb_true_iff in Hn as [He Hl]. destruct (tstep iv rt s x) as [s1|] eqn:E; [|discriminate].
+    destruct x as [now e]; simpl in He. unfold tstep in E.
+    destruct (step (t_st s) e) as [s2|] eqn:E2; [|discriminate].
+    assert (K : timer s2 = true).
+    { destruct e as [c| |ok]; simpl in *; try discriminate.
+      - destruct (ocfg_eqb (config (t_st s)) (Some c)); inversion E2; subst; simpl; auto.
+      - destruct (config (t_st s)); inversion E2; subst; simpl; auto. }
+    destruct e as [c| |ok]; simpl in He; try discriminate;
+      rewrite T in E; inversion E; subst; clear E; refine (IH _ Hl H _ _); simpl; auto.
+Qed.
+
+(* the timer case of the select is enabled from the deadline on *)
+Lemma fire_enabled_from_deadline iv rt s d now ok : timer (t_st s) = true -> t_deadline s = Some d ->
+  (d <= now)%N -> exists s', tstep iv rt s (now, Fire ok) = Some s'.
+Proof.
+  intros T D L. unfold tstep; simpl. rewrite T, D. apply N.leb_le in L. rewrite L. eauto.
+Qed.
+
+(* ... and not before *)
+Lemma fire_not_early iv rt s d now ok : t_deadline s = Some d -> (now < d)%N -> tstep iv rt s (now, Fire ok) = None.
+Proof.
+  intros D L. unfold tstep; simpl. destruct (timer (t_st s)); [|reflexivity]. rewrite D.
+  apply N.leb_gt in L. rewrite L. reflexivity.
+Qed.
+
+Lemma failed_fire_deadline iv rt s now s1 : tstep iv rt s (now, Fire false) = Some s1 ->
+  timer (t_st s1) = true /\ t_deadline s1 = Some (now + rt)%N.
+Proof.
+  unfold tstep; simpl. destruct (timer (t_st s)); [|discriminate]. destruct (t_deadline s) as [d|]; [|discriminate].
+  destruct (N.leb d now); [|discriminate]. intros H; inversion H; subst; simpl; auto.
+Qed.
+
+Lemma arming_deadline iv rt s now e s1 : is_fire e = false -> timer (t_st s) = false ->
+  tstep iv rt s (now, e) = Some s1 -> timer (t_st s1) = true -> t_deadline s1 = Some (now + iv)%N.
+Proof.
+  intros F T H T1. unfold tstep in H. destruct (step (t_st s) e) as [s2|]; [|discriminate].
+  destruct e as [c| |ok]; simpl in F; try discriminate; rewrite T in H; inversion H; subst; simpl in *; rewrite T1; reflexivity.
+Qed.
+
+(* a failed attempt at [now] is retried from [now + rt] on, whatever is submitted in between *)
+Lemma retry_not_starved iv rt s now s1 subs s2 :
+  tstep iv rt s (now, Fire false) = Some s1 -> no_fire (map snd subs) = true -> trun iv rt s1 subs = Some s2 ->
+  t_deadline s2 = Some (now + rt)%N
+  /\ (forall t ok, (now + rt <= t)%N -> exists s3, tstep iv rt s2 (t, Fire ok) = Some s3)
+  /\ (forall t ok, (t < now + rt)%N -> tstep iv rt s2 (t, Fire ok) = None).
+Proof.
+  intros F Hn R. destruct (failed_fire_deadline _ _ _ _ _ F) as [T D].
+  destruct (deadline_kept _ _ _ _ _ _ Hn R T D) as [T2 D2]. split; [exact D2|]. split.
+  - intros t ok L. eapply fire_enabled_from_deadline; eassumption.
+  - intros t ok L. eapply fire_not_early; eassumption.
+Qed.
+
+(* the first change of a window at [now] is loaded from [now + iv] on, whatever is submitted after it *)
+Lemma debounce_not_postponed iv rt s now e s1 subs s2 :
+  timer (t_st s) = false -> is_fire e = false -> tstep iv rt s (now, e) = Some s1 -> timer (t_st s1) = true ->
+  no_fire (map snd subs) = true -> trun iv rt s1 subs = Some s2 ->
+  t_deadline s2 = Some (now + iv)%N
+  /\ (forall t ok, (now + iv <= t)%N -> exists s3, tstep iv rt s2 (t, Fire ok) = Some s3)
+  /\ (forall t ok, (t < now + iv)%N -> tstep iv rt s2 (t, Fire ok) = None).
+Proof.
+  intros T0 F E T Hn R. pose proof (arming_deadline _ _ _ _ _ _ F T0 E T) as D.
+  destruct (deadline_kept _ _ _ _ _ _ Hn R T D) as [T2 D2]. split; [exact D2|]. split.
+  - intros t ok L. eapply fire_enabled_from_deadline; eassumption.
+  - intros t ok L. eapply fire_not_early; eassumption.
+Qed.
+
+Lemma timed_refines iv rt l s : trun iv rt tinit l = Some s -> run init (map snd l) = Some (t_st s).
+Proof. intros H. exact (trun_erase _ _ _ _ _ H). Qed.
+
+(* the deadlines restrict no history of the untimed model: every run has a timing *)
+Lemma timed_total_from iv rt l : forall s B u, tinv s -> (forall d, t_deadline s = Some d -> (d <= B)%N) ->
+  run (t_st s) l = Some u -> exists tl s', map snd tl = l /\ trun iv rt s tl = Some s' /\ t_st s' = u.
+Proof.
+  induction l as [|e l IH]; intros s B u I Hb H; simpl in *.
+  - inversion H; subst. exists [], s. auto.
+  - destruct (step (t_st s) e) as [s1|] eqn:E; [|discriminate].
+    assert (X : exists s1', tstep iv rt s (B, e) = Some s1' /\ t_st s1' = s1 /\ (forall d, t_deadline s1' = Some d -> (d <= B + iv + rt)%N)).
+    { unfold tstep. rewrite E. destruct e as [c| |ok].
+      - eexists; split; [reflexivity|]. split; [reflexivity|]. simpl. intros d.
+        destruct (timer (t_st s)); [intros Hd; apply Hb in Hd; lia|]. destruct (timer s1); [|discriminate].
+        intros Hd; inversion Hd; lia.
+      - eexists; split; [reflexivity|]. split; [reflexivity|]. simpl. intros d.
+        destruct (timer (t_st s)); [intros Hd; apply Hb in Hd; lia|]. destruct (timer s1); [|discriminate].
+        intros Hd; inversion Hd; lia.
+      - simpl in E. destruct (timer (t_st s)) eqn:T; [|discriminate].
+        destruct (t_deadline s) as [d0|] eqn:D; [|exfalso; apply (proj1 I T); exact D].
+        pose proof (Hb _ eq_refl) as L. apply N.leb_le in L. rewrite L.
+        eexists; split; [reflexivity|]. split; [reflexivity|]. simpl. intros d. destruct ok; [discriminate|].
+        intros Hd; inversion Hd; lia. }
+    destruct X as (s1' & E1 & E2 & Hb1). subst s1.
+    destruct (IH s1' (B + iv + rt)%N u (tinv_step _ _ _ _ _ I E1) Hb1 H) as (tl & s' & M & R & U).
+    exists ((B, e) :: tl), s'. split; [simpl; rewrite M; reflexivity|]. split; [|exact U].
+    change (match tstep iv rt s (B, e) with Some s0 => trun iv rt s0 tl | None => None end = Some s'). rewrite E1. exact R.
+Qed.
+
+Lemma timed_total iv rt l u : run init l = Some u ->
+  exists tl s', map snd tl = l /\ trun iv rt tinit tl = Some s' /\ t_st s' = u.
+Proof.
+  intros H. apply (timed_total_from iv rt l tinit 0%N u tinv_init); [simpl; discriminate|exact H].
+Qed.
